@@ -505,7 +505,7 @@ def _scalar_is_sum_of_squares_of_vector(col, rule="C16.R3"):
     if not scal or not vec:
         raise AnalysisError("MeritFunctionForMatch.__call__: scalar / vector results not recognised -- cannot decide")
     for r, x, y in scal:
-        ok = x == y and x in vec
+        ok = x == y and any(x == v or S.contains(v, lambda t, x=x: t == x) for v in vec)
         col.add(rule, "MeritFunctionForMatch.__call__#scalar-is-sum-of-squares-of-the-vector", ok, sx.loc(r),
                 "the scalar result is sum(v * v) for the very vector v the vector form returns",
                 "" if ok else f"sum of ({S.show(x)[-60:]}) * ({S.show(y)[-60:]})")
